@@ -124,6 +124,8 @@ pub fn mutants(p: &Program) -> Vec<Mutant> {
                     "ID!" => vec![("Int", "variable-type:int-for-id"), ("ID", "variable-type:nullable-for-non-null")],
                     "Int" => vec![("String", "variable-type:string-for-int"), ("[Int]", "variable-type:list-for-int")],
                     "PetInput" => vec![("NestedInput", "variable-type:other-input-object")],
+                    "[ID!]!" => vec![("[ID!]", "variable-type:nullable-list-for-non-null-list"), ("[ID]!", "variable-type:nullable-items-for-non-null-items"), ("ID!", "variable-type:scalar-for-list"), ("[Int!]!", "variable-type:int-items-for-id-items"), ("[[ID!]!]!", "variable-type:nested-list-for-list")],
+                    "[String]" => vec![("[Int]", "variable-type:int-items-for-string-items"), ("String", "variable-type:scalar-for-list"), ("[[String]]", "variable-type:nested-list-for-list")],
                     _ => vec![],
                 };
                 for (w, kind) in wrong {
